@@ -268,7 +268,9 @@ func (b *bitstream) Next() error {
 		rem -= lenghtOfRemaining
 	}
 
-	if length > rem {
+	if length > rem || length > math.MaxUint64-b.pos {
+		// The second test keeps pos+length, the end offset of a container we may
+		// step in to, from wrapping around at the top level (where rem is unbounded).
 		msg := fmt.Sprintf("value overruns its container: %v vs %v", length, rem)
 		return &SyntaxError{msg, pos - 1}
 	}
